@@ -701,7 +701,8 @@ META = {
     "technique": "custom typestate dataflow over the CFGs of all tokenizer_t methods (state: current character known non-NUL / peek and match results still describing the cursor), with mover summaries, entry preconditions checked at call sites, and named idiom checks; plus null-return, position-independence and delimiter-agreement queries",
     "level": "Static all-paths decision that no method of tokenizer_t advances the cursor over a character that may be the terminating NUL - for every input, including unterminated literals at the end of the source - by "
              "tracking on every CFG path which branch conditions (direct tests, charset membership, successful peek()/operator match with the cursor unmoved) have established non-NUL; that no std::string-returning function "
-             "returns NULL; that escape() is position independent and unescape() its inverse; that printers and tokenizer agree on delimiters; and that operators are consumed by their longest-match length.",
-    "note": "Does not decide the print/re-tokenise identity for all token sequences (value-level) nor scanners outside tokenizer_t (primitive::load, lex::*). Two advances rest on named idioms that are re-verified structurally on every run  An outside dynamic probe (DESIGN 10.9, probes/P12) found further token-level defects that no rule here reports: `/*/` closes itself, a backslash before `*/` keeps the comment open, `L 'a'` loses the identifier, `true1` is split, `<=>` is not registered, raw strings are printed without delimiters."
+             "returns NULL; that escape() is position independent and unescape() its inverse; that printers and tokenizer agree on delimiters; that operators are consumed by their longest-match length and every printable operator spelling is registered; that the literal scanner does not recurse, leaves its suffix loop only before anything of the round was consumed, "
+             "and that a literal spelled like an identifier is not split off one; block comments are scanned from behind the opener without an escape character.",
+    "note": "Does not decide the print/re-tokenise identity for all token sequences (value-level) nor scanners outside tokenizer_t (primitive::load, lex::*). Two advances rest on named idioms that are re-verified structurally on every run  An outside dynamic probe (DESIGN 10.9, probes/P12) found token-level defects; those with a code-shape class were fixed and are decided by R5-R7, R9-R11; not reported by any rule: `L 'a'` loses the identifier, raw strings are printed without delimiters."
             "(raw-string end pattern, finishedSource protocol).",
 }
